@@ -26,7 +26,11 @@ for sid in ids:
     if meta.get('evaluated_at_repo_head') == head and meta.get('final') and not os.environ.get('SEED_FORCE'):
         continue
     sh('git checkout -- . && git clean -fdq')
-    demo = d + '/demo.py'
+    # demos written by the sub-agents sometimes name their own (long gone) worktree: run a copy that names this one
+    import re
+    src_demo = open(d + '/demo.py').read()
+    demo = WT + '/_seed_demo.py'
+    open(demo, 'w').write(re.sub(r'/tmp/w[t23]_[A-Za-z0-9]+', WT, src_demo))
     meta['evaluated_at_repo_head'] = head
     meta['demo_without'] = sh('/venv/bin/python %s' % demo, env=env).returncode
     a = sh('git apply %s' % (d + '/patch.diff'))
